@@ -206,15 +206,17 @@ const RouterID = 0x0a000001
 // Variants of the path attributes of a generated UPDATE: patterns a real session's Adj-RIB-In treats
 // specially (loops, reflection attributes, roles, well-known communities, odd next hops). A BMP mirror
 // stores what was reported regardless.
-var Variants = []string{"plain", "aspath-local-as", "aspath-peer-twice", "cluster-list", "originator-other", "otc",
+var Variants = []string{"plain", "nexthop6-linklocal", "aspath-local-as", "aspath-peer-twice", "cluster-list", "originator-other", "otc",
 	"communities", "nexthop-local", "nexthop-far", "originator-router-id", "empty-aspath"}
 
 // PickVariant draws a variant: mostly plain, the two the pseudo session hides (known findings) rarely.
 func PickVariant(r *hx.RNG) string {
 	k := r.Intn(100)
 	switch {
-	case k < 50:
+	case k < 42:
 		return "plain"
+	case k < 50:
+		return "nexthop6-linklocal"
 	case k < 64:
 		return "aspath-local-as"
 	case k < 68:
@@ -285,6 +287,8 @@ func UpdateForV(p Peer, withdraw, announce []NLRI, variant string) []byte {
 		u.NextHop6 = Addr6(0x20010db8ffff0000, 0x99)
 	case "empty-aspath":
 		u.EmptyASPath = true
+	case "nexthop6-linklocal":
+		u.NextHop6LL = true
 	}
 	return u.Bytes()
 }
@@ -295,4 +299,38 @@ func PathID(p Peer, v6 bool, r *hx.RNG) uint32 {
 		return uint32(1 + r.Intn(2))
 	}
 	return 0
+}
+
+// AttrLenOffsets returns the offsets of the (one byte) length fields of the path attributes of a
+// generated UPDATE (attributes with extended length are skipped).
+func AttrLenOffsets(m []byte) []int {
+	if len(m) < 23 || m[18] != 2 {
+		return nil
+	}
+	off := 19
+	wl := int(m[off])<<8 | int(m[off+1])
+	off += 2 + wl
+	if len(m) < off+2 {
+		return nil
+	}
+	al := int(m[off])<<8 | int(m[off+1])
+	off += 2
+	end := off + al
+	if end > len(m) {
+		end = len(m)
+	}
+	var out []int
+	for off+3 <= end {
+		fl := m[off]
+		if fl&0x10 != 0 {
+			if off+4 > end {
+				break
+			}
+			off += 4 + (int(m[off+2])<<8 | int(m[off+3]))
+			continue
+		}
+		out = append(out, off+2)
+		off += 3 + int(m[off+2])
+	}
+	return out
 }
